@@ -424,36 +424,68 @@ def register(props):
     entry["rule"] = (entry.get("rule", "") + " | " if entry.get("rule") else "") + rule
     entry.setdefault("level_text",
                      "Data layer (Properties/C05.v, unbounded): Unserialize gives literally the same outcome on a decodable value "
-                     "and on its CBOR round trip, for every schema kind. Protocol layer, server half (unbounded, every client script x "
-                     "behaviour oracle x schedule of the server model ATP/Server.v): a work-done for run id r with output o is written "
-                     "only for a consumed work-start with run id r whose execution yields o (C05_server_routes_by_run_id; with C07: "
-                     "exactly one per accepted work-start). Protocol layer, client half and COMPOSITION (unbounded; model "
-                     "ATP/System.v = client model ATP/Client.v x server model ATP/Server.v x the two FIFO streams, the client "
-                     "model's scripted peer replaced by the real server model; every number of calls, every input token, every "
-                     "behaviour oracle, every schedule incl. every read-ahead and pipe chunking; inductive invariants, no bounded "
-                     "sweep): C05_never_cross_delivered - in EVERY reachable state, with or without Close, what Execute i has "
-                     "returned is spec_callstep of call i's own input; C05_every_execute_returns - in a session without Close a "
-                     "state with no enabled label has every Execute returned (the client model's conservation invariant `inv` is "
-                     "re-used through the abstraction 'plan := what the server still owes': the server model refines the client "
-                     "model's healthy peer; server accounting TermInv + server_idle); C05_refines = the two together: every "
-                     "maximal execution ends with result i = CallStep(input i); C05_rejected_is_error (rejected input = that "
-                     "run's ErrStep, handler not reached); C05_client_routes_by_run_id (client model alone against an arbitrary "
-                     "environment that delivers terminal messages of the calls in any order and multiplicity: work-starts carry "
-                     "the caller's run id and input, results are filed by run id); C05_v1_concurrent_refuted (D26 witness in the "
-                     "minimal v1 model). Non-vacuity: a 3-call overlapping session with read-ahead evaluated by vm_compute to a "
-                     "final state. The end-to-end differential check of the real client and server against the in-process "
-                     "CallStep (this family) ties the composition to the code.")
+                     "and on its CBOR round trip, for every schema kind (C05_norm_invariant); hence CallStep as a whole - result, "
+                     "handler log, step-data tables - is the same on both (C05_callstep_norm_invariant). Protocol layer, server "
+                     "half (unbounded, every client script x behaviour oracle x schedule of the server model ATP/Server.v): a "
+                     "work-done for run id r with output o is written only for a consumed work-start with run id r whose execution "
+                     "yields o (C05_server_routes_by_run_id; with C07: exactly one per accepted work-start). Protocol layer, client "
+                     "half and COMPOSITION (unbounded; model ATP/System.v = client model ATP/Client.v x server model ATP/Server.v x "
+                     "the two FIFO streams, the client model's scripted peer replaced by the real server model; every number of "
+                     "calls, every input, every behaviour oracle, every schedule incl. every read-ahead and pipe chunking; "
+                     "inductive invariants, no bounded sweep): C05_never_cross_delivered - in EVERY reachable state, with or without "
+                     "Close, what Execute i has returned is spec_callstep of call i's own input; C05_refines_with_close - for "
+                     "sessions WITH or without Close (Close runs concurrently with the calls in flight or after them), at the end "
+                     "of EVERY maximal execution every Execute has returned spec_callstep of its own input AND Close has returned "
+                     "nil, wait group 0, read loop and signal writers gone (new invariant CInv: FIFO order of the client->server "
+                     "stream as a whole - no accepted work-start behind the first client-done, none left unread once the server "
+                     "has consumed client-done; server_idle2 for the deferred / gone run() goroutine; the client model's Close "
+                     "theorem re-proved for states quiet for the client goroutines only); C05_clean_shutdown - in such a session "
+                     "the server side has shut down too: RunATPServer's closure handler has returned, the run() goroutine is gone, "
+                     "wait group 0, report channel and pipe empty, no crash; C05_every_execute_returns / C05_refines / "
+                     "C05_rejected_is_error (the close = false instances, kept); C05_client_routes_by_run_id (client model alone "
+                     "against an arbitrary environment that delivers terminal messages of the calls in any order and multiplicity). "
+                     "END TO END over values (ATP/SystemV.v, Proofs/C05Transparent.v): a payload of the composition is a NAME for a "
+                     "gval - token i names the input value of call i, the server's behaviour oracle is the class of call_step "
+                     "(Call/Step.v: Unserialize, Validate, handler, output lookup, Validate, Serialize) on cbor_norm n_in of that "
+                     "value, the data of a work-done is decoded as cbor_norm n_out of the serialized output. "
+                     "C05_transparent_end_to_end - for every plugin (schemas, handlers), every session with or without Close over "
+                     "decodable inputs, every schedule: every Execute returns v_spec of ITS OWN input value = the in-process "
+                     "CallStep result on the ORIGINAL value, output data after one CBOR round trip, and the CallStep the server ran "
+                     "on the decoded value is literally the in-process one (same result, same handler log: the handler saw the same "
+                     "unserialized input); C05_transparent_reads spells the success path out (data received = "
+                     "cbor_norm(serialize(handler output)), handler invoked on unser(input)). The naming is a theorem, not an "
+                     "inspection: C05_client_payload_parametric - for every f : P -> Q, mapping f over every payload held in a "
+                     "client state commutes with every step of every label of ATP/Client.v - and C05_client_over_values - the "
+                     "executions of the client model at payload := gval on the session as stated are exactly the images of the "
+                     "token executions; C05_value_level_is_image - ATP/SystemVal.v is the composition as a transition system of its own "
+                     "with the client at payload := gval (real values in the callers, on the wire, in the results; the server model "
+                     "is handed each message under the name of its run id's call) and its executions ARE the images of the token "
+                     "executions, label for label (free theorem + invS + SigInv: a signal carries its caller's input), hence "
+                     "C05_transparent_values (the end-to-end statement verbatim for the value-level system) and C05_value_wire "
+                     "(every work-start in the value-level pipe carries the input value of the call its run id names). Version 1: "
+                     "C05_v1_concurrent_refuted (D26) and C05_v1_serial - under serial use (an "
+                     "Execute starts only while none is in flight; every serial execution is an execution of the v1 model) every "
+                     "reachable state has result i = CallStep(input i), and when no step fails every maximal serial execution "
+                     "returns them all. Non-vacuity by vm_compute to final states: 3 overlapping calls with read-ahead, without "
+                     "Close and with Close called while they are in flight (results, CloseOk, server HReturned), the same session "
+                     "over gval with a list[int] echo step whose inputs the wire really changes, the serial v1 run. The end-to-end "
+                     "differential check of the real client and server against the in-process CallStep (this family) ties the "
+                     "composition to the code.")
     entry.setdefault("level_note",
                      "The interpreter (Interp/RunAtpxp.v) predicts each Execute result as cbor_norm of the recorded in-process "
                      "result; the harness re-checks that record against CallStep at run time (inproc-agrees); lib/props_c05.py "
-                     "re-implements the normalisation for the direct check. PARTIAL in the protocol layer: (1) progress / "
-                     "C05_refines are proved for sessions in which the harness does not call Close (the safety half holds with "
-                     "Close; missing: the FIFO-order invariant 'no work-start behind client-done'); (2) the payload of the "
-                     "composition is an abstract token (the data layer - cbor_norm on both legs - is the separate theorem "
-                     "C05_norm_invariant; the two are not composed into one statement over gval); every Execute of the client model "
-                     "calls step id \"s\" (unknown step ids are the behaviour BFails); (3) run ids must be non-empty: Execute itself "
-                     "rejects a blank run id before anything is written (atp/client.go), which the client model does not represent; "
-                     "(4) v1 is modelled minimally (in-order sequential server), only the refutation is proved.")
+                     "re-implements the normalisation for the direct check. Nothing of the plan is left unproved; what remains are "
+                     "MODELLING LIMITS of the statements: (1) in the value-level system the SERVER component still holds values by "
+                     "name (ATP/Server.v is not parametric: it takes the payload as an opaque token and consults it only through "
+                     "its behaviour oracle, which v_scfg defines as CallStep on the decoded input value of the named call; that the "
+                     "value crossing the pipe is that input is proved - C05_value_wire - but that the real server treats the "
+                     "payload that way is the C07 correspondence, not a C05 theorem); every Execute of the client model calls step id \"s\" (unknown step ids are the behaviour "
+                     "BFails); a signal carries its call's token; (2) run ids must be non-empty: Execute itself rejects a blank run "
+                     "id before anything is written (atp/client.go), which the client model does not represent; (3) Close's first "
+                     "step is enabled once every Execute of the session has written its work-start (the harness contract of C06): a "
+                     "Close that overtakes an Execute still before its write is outside the model; (4) v1 is modelled minimally "
+                     "(in-order sequential server; a failing step ends the plugin), the serial discipline is a hypothesis on the "
+                     "schedule; (5) healthy transport only (stream faults are C08).")
     entry.setdefault("design_ref", "DESIGN.md §5 C05")
     entry.setdefault("trusted", [])
     entry["trusted"] += ["the session driver (harness/cmd/harness/c05_transparent.go): transports with scripted fragmentation, the "
